@@ -85,7 +85,7 @@ pub fn child_main() -> i32 {
     extern "C" fn noop(_: c_int) {}
     unsafe {
         let mut sa: libc::sigaction = std::mem::zeroed();
-        sa.sa_sigaction = noop as usize;
+        sa.sa_sigaction = noop as *const () as usize;
         sa.sa_flags = 0;
         libc::sigaction(libc::SIGUSR1, &sa, std::ptr::null_mut());
     }
